@@ -120,6 +120,11 @@ func directCorpus() []*directInput {
 		{Universe: simpleUniverse, Contact: bob("active", nil, []int{3}), Modifier: &modSpec{Kind: "field", Field: 2, Text: strings.Repeat("I don't remember. ", 40) + "Maybe 2019-05-06?"}},
 		{Universe: simpleUniverse, Contact: bob("active", nil, []int{3}), Modifier: &modSpec{Kind: "field", Field: 2, Text: "2020-01-01T10:00:00.123456789Z"}},
 		{Universe: simpleUniverse, Contact: bob("active", nil, []int{3}), Modifier: &modSpec{Kind: "field", Field: 0, Text: "2020-01-01T10:00:00.000000001+02:00"}},
+		// F3m (fixed): SetChannel re-normalized the stored path (tel:12065551212 -> +12065551212; +43005086055 loses a zero on
+		// every application, so the same channel modifier changed the contact again and again)
+		{Universe: simpleUniverse, Contact: bob("active", []string{"tel:+43005086055"}, []int{3}), Modifier: &modSpec{Kind: "channel", Channel: 0}},
+		{Universe: simpleUniverse, Contact: bob("active", []string{"tel:+4400858870981", "tel:12065551212"}, []int{3}), Modifier: &modSpec{Kind: "channel", Channel: -1}},
+		{Universe: simpleUniverse, Contact: bob("active", []string{"tel:12065551212", "telegram:12345"}, []int{3, 4}), Modifier: &modSpec{Kind: "channel", Channel: 3}},
 		// a group reference repeated in the stored contact (F6c, fixed by 595be89): Remove deleted one entry only
 		{Universe: simpleUniverse, Contact: &contactSpec{Name: "Jim", Lang: "eng", Status: "active", Groups: []int{3, 3, 0, 0}, Fields: map[string]string{}}, Modifier: &modSpec{Kind: "language", Text: "fra"}},
 		{Universe: simpleUniverse, Contact: &contactSpec{Name: "Jim", Lang: "eng", Status: "active", Groups: []int{0, 1, 0}, Fields: map[string]string{}}, Modifier: &modSpec{Kind: "groups", Mode: "remove", Groups: []int{0}}},
